@@ -78,6 +78,8 @@ def mutants(prog):
         ("make_instance drops grids", DI, "ImageBatch.crop", "return self._make_instance(data, grid)", "return self._make_instance(data, self._grid)", "T13."),
         ("flow sample: GRID vectors not re-expressed", "deepali.data.flow", "FlowFields.sample", "if axes != Axes.WORLD:", "if axes in (Axes.CUBE, Axes.CUBE_CORNERS):", "T10x.sample"),
         ("origin_: internal float size", G, "Grid.origin_", "size = self.size_tensor()", "size = self._size", "fractional-size"),
+        ("resample: output coordinates not mapped into the input cube", CI, "grid_resample", "coords = grid_transform_points(coords, output_grid, axes, input_grid, axes)", "coords = coords", "T13.resample"),
+        ("resample: grid from the first image", DI, "ImageBatch.resample", "grid = tuple((grid.resample(out_spacing) for grid in self._grid))", "grid = tuple((self._grid[0].resample(out_spacing) for grid in self._grid))", "T13.resample"),
     ]
     for name, mod, fn, old, new, expect in specs:
         ov = source_sub(prog, mod, fn, old, new)
